@@ -47,6 +47,11 @@ func genCase() *rapid.Generator[Case] {
 				op.ID = rapid.SampledFrom(idAlpha).Draw(t, "id")
 				op.A = rapid.SampledFrom(fieldAlpha).Draw(t, "a")
 				op.B = rapid.SampledFrom(fieldAlpha).Draw(t, "b")
+				if rapid.IntRange(0, 4).Draw(t, "then") == 0 {
+					op.Then = rapid.SampledFrom([]string{"update", "update", "delete"}).Draw(t, "thenk")
+					op.A2 = rapid.SampledFrom(fieldAlpha).Draw(t, "a2")
+					op.B2 = rapid.SampledFrom(fieldAlpha).Draw(t, "b2")
+				}
 			case "delete":
 				op.ID = rapid.SampledFrom(idAlpha).Draw(t, "id")
 			case "query":
